@@ -3,14 +3,14 @@ CONSTANTS
   HostOf <- H2
   NBlocks = 2
   BlockBits = 1
-  Handles = {"hA"}
+  Handles = {"hA", "hB"}
   Nums = {1, 2}
   Strict = FALSE
   Cool = 0
   MaxB = 0
   TwoPools = FALSE
   RsvLast = FALSE
-  MaxOps = 2
+  MaxOps = 1
   MaxCrash = 1
   MaxConf = 1
   MaxTicks = 0
